@@ -44,6 +44,14 @@ Faults == <<
   <<"malformed", "offset-extra", "addi x5, x5, %offset(F0, 4)">>,
   <<"malformed", "position-short", "lui x5, %hi(%position(">>,
   <<"malformed", "data", "dw 4 +">>,
+  <<"malformed", "operands-few", "add x5, x6">>,
+  <<"malformed", "operands-few-store", "sw x5">>,
+  <<"malformed", "operands-many", "add x5, x6, x7, x8">>,
+  <<"malformed", "pseudo-few", "mv x5">>,
+  <<"malformed", "pseudo-many", "ret x1">>,
+  <<"malformed", "pseudo-branch-few", "beqz x5">>,
+  <<"malformed", "offset-syntax", "lw x10, %lo(4)(x9)">>,
+  <<"malformed", "li-few", "li x5">>,
   <<"malformed", "constant", "KY = 4 4">>,
   <<"noninteger", "float", "addi x5, x5, 1.5">>,
   <<"noninteger", "division", "KZ = 3 / 2">>,
